@@ -104,6 +104,11 @@ Definition c10_big_wire_violations (rs : list c10_big_run) : list nat :=
 Definition c10_big_call_violations (rs : list c10_big_run) : list nat :=
   indices_where (fun r => negb (c10_calls_ok (c10_unbig r))) rs.
 
+(* Disconnect racing producers: outcome of every call of a trial, 0 = nil, 1 = ErrClosedClient (the
+   documented answer after Disconnect), 2 = any other error, 3 = panic (e.g. send on closed channel) *)
+Definition c10_trial_ok (codes : list N) : bool := forallb (fun c => c <=? 1) codes.
+Definition c10_trial_violations (ts : list (list N)) : list nat := indices_where (fun t => negb (c10_trial_ok t)) ts.
+
 (* overlap probes: a writer is held inside Transport.Write while another packet becomes due;
    observed: the largest number of goroutines inside Write at the same time, and the wire *)
 Definition c10_probe := (nat * c10_run)%type.
@@ -137,6 +142,11 @@ Definition c10_policy : list (string * string * fclass) :=
     ("ReconnectOptions", "*", Config ["WithTimeout"; "WithReconnectWait"; "WithPingInterval"; "WithRetryClient";
                                        "WithAlwaysResubscribe"; "reconnectClient.Connect"]);
     ("BaseClientStoreDialer", "Dialer", Config []);
+    (* send-vs-close ordering of channel fields (pseudo-field "<field><-close()": send = read,
+       close = write). chTask is Guarded: pushTask's send and Disconnect's close must share c.mu.
+       chConnectErr is made by SetClient for exactly one Connect call, which sends and then closes
+       it in program order: declared, checked only as "nobody else sends or closes it". *)
+    ("RetryClient", "chConnectErr<-close()", Config ["RetryClient.Connect"]);
     ("ServeMux", "handlers", Config ["ServeMux.Handle"]);
     ("ServeAsync", "Handler", Config []) ].
 
@@ -190,7 +200,8 @@ Definition c10_required : list (string * string) :=
     ("signaller", "chPubAck"); ("signaller", "chPubRec"); ("signaller", "chPubComp"); ("signaller", "chSubAck");
     ("signaller", "chUnsubAck"); ("signaller", "chPingResp");
     ("RetryClient", "cli"); ("RetryClient", "taskQueue"); ("RetryClient", "retryQueue"); ("RetryClient", "chTask");
-    ("RetryClient", "stats"); ("RetryClient", "stopped"); ("RetryClient", "subEstablished"); ("firstError", "err") ].
+    ("RetryClient", "stats"); ("RetryClient", "stopped"); ("RetryClient", "subEstablished"); ("firstError", "err");
+    ("RetryClient", "chTask<-close()") ].
 Definition c10_coverage_gaps (tbl : list access) : list nat :=
   indices_where (fun sf => negb (existsb (fun a => String.eqb (a_struct a) (fst sf) && String.eqb (a_field a) (snd sf) && is_write a) tbl))
                 c10_required.
